@@ -30,7 +30,14 @@ TV      harness `zone hostile`: structured families ($INCLUDE in all 128 case va
         tokens / comments / parenthesised runs of 511..10^6 octets) observed under recover(); `zone prefixes`:
         every prefix (cut after every character) of every record text of harness/lib/zoo (77 RR types, ~19.6 k
         texts: as is, + newline, and at token boundaries + blank / parenthesis / comment / quote) through
-        NewZoneParser(...).Next() and dns.ReadRR under the same guards (all of them in both tiers: 3 s); `zone insertions`:
+        NewZoneParser(...).Next() and dns.ReadRR under the same guards (all of them in both tiers: 3 s); the same mode cuts the
+        CONTROL ENTRIES ($GENERATE with ranges, steps, ${offset,width,base} modifiers in owner and RDATA templates, $$ and \\$, quoted
+        and parenthesised RDATA; $ORIGIN, $TTL, $INCLUDE with and without origin argument) after every character, as they stand / + line
+        end / + a record / + "${", "$", "}", a backslash (prefix:$GENERATE ...: an unterminated modifier at the end of the input, of
+        the line, before a further token), and MUTATES every zoo record at token level (family mutate:<TYPE>): each token after the
+        owner written twice / three times in a row, once more in the other case, left out, exchanged with or joined to its
+        neighbour -- lists with a repeated member (type bit maps, SVCB keys, APL items, strings), a missing or misplaced
+        item -- each followed by a valid record (~6 k texts); one history in ten goes to Trace_Zone; `zone insertions`:
         " )", " (", ")", "(", " ( ", " ) (", an unterminated quote, " ( )", " ;)" inserted at every token boundary of the RDATA
         of every zoo record + a second record (and a lone backslash / open parenthesis at end of input): ~4 k texts,
         classified by Gen_Present (Mode "file"), replayed like the generated texts: ill-formed => an error is due;
@@ -67,6 +74,9 @@ Mutants (checks/mutants/C07/*.diff, run like C06's; exit 1 with seed 1 unless no
   include-open-failure-not-fatal   the failed-Open error is kept in a field Next ignores   vectors error-then-more / shapes: zone/accepts:include; families error-then-more: zone/hostile:not-sticky; Trace_Zone zone/sticky:next:rr
   seeded C07-17 (failed state moved into the lexer; parseErr assigned directly for a bad initial origin and a failed Open never stops it)
                                                                              the three above: zone/accepts:initial-origin, zone/accepts:include, zone/hostile:not-sticky, zone/sticky:next:rr
+  seeded C07-20 (type bit map loop `continue's without advancing on a type repeated directly after itself: NSEC / NSEC3 / CSYNC / NXT never return)
+                                                                             prefixes, token mutations: zone/hostile:hang:mutate:CSYNC (first type with a bit map in the zoo; the process ends there)
+  seeded C07-21 (unterminated ${ in a $GENERATE template: slice bounds panic)  families generate ("h${"): zone/hostile:panic; prefixes of the control entries: zone/hostile:panic:prefix:$GENERATE
   seeded C07-14 (buffer growth check split by comment state: com[512] written)   families buffer-boundary: zone/hostile:panic
   seeded C07-7 (I/O error of an included file's reader dropped by subNext)  families io-error: zone/hostile:io-error-lost:include, :nested, :include-big, :directory
   seeded C07-2 (LOC altitude indexes an empty token at end of input)         prefixes: zone/hostile:panic:prefix:LOC
@@ -364,7 +374,7 @@ def rerun(ctx, binp, case):
         vp.write_ndjson(p, [dict(case, kind="text")])
         return ctx.run_json(binp, ["replay", p])["mismatches"]
     out = os.path.join(ctx.out, "families-again.ndjson")
-    s = ctx.run_json(binp, ["prefixes" if str(case.get("family", "")).startswith("prefix:") else "hostile", out])
+    s = ctx.run_json(binp, ["prefixes" if str(case.get("family", "")).startswith(("prefix:", "mutate:")) else "hostile", out])
     ms = list(s["mismatches"])
     sub = vp.Ctx.__new__(vp.Ctx)
     sub.__dict__.update(ctx.__dict__)
